@@ -6,9 +6,12 @@ import shapes as S
 import knotops as KO
 
 PID = 'C05'
+FLOAT_KINDS = {'refine-op', 'refine-helper'}      # float-mode companion (core.float_companion)
+FLOAT_TOL = 1e-8
 STATS = G.STATS
 PARTIAL = [
-    "the model of helpers.knot_refinement is specification-level (the knots X inserted one at a time with the proved A5.1 model); that A5.4 as coded returns the same control points is checked by the exact correspondence, not proved",
+    "A5.4 as coded is now MODELLED (refineA54 / knotRefinementA54: literal transcription of the loops of helpers.knot_refinement, run against the real function by the streams refa54 / refa54h) and PROVED equal to the specification-level model (fold of single A5.1 insertions: knot vector and control points) - for CURVE-level calls with a knot vector clamped at the start in which no value occurs more than p+1 times (general form: every basis function of the refined curve has support, SuppOk); the surface / volume branch of the helper (control points that are lists of points, `else` branch of isinstance(ctrlpts[0][0], float)) is the same arithmetic applied row-wise and is covered by the correspondence through operations.refine_knotvector only; the object-level theorems (refineDir, refineKnotvector) remain about the specification-level model",
+    "the theorems about refineA54 need: X non-empty, sorted, inside [U_p, U_n), old knots and X tolerance separated, final multiplicities <= p (all satisfied by the list X the code computes: genX_hyps); for other X (e.g. a knot raised above multiplicity p) nothing is proved",
     "curves, surfaces and volumes (helper level; refineDir in every direction of a surface / volume; refine_knotvector on any subset of the two / three directions: refineKnotvector_preserves_surface, refineDir_preserves_volume, refineKnotvector_preserves_volume) are proved end-to-end under explicit hypotheses: well-formed object (CurveWF / SurfWF / VolWF), knot vector clamped at the END of each refined direction, 0 <= tol and tolerance separation of the old knots and the bisection knots of each refined direction (equal or further apart than tol), all stated on the ORIGINAL object",
     "rational objects: the theorems are about the homogeneous net (coordinatewise); the projection step is C01/C09's",
 ]
@@ -53,6 +56,41 @@ def gen(rng, tier):
         G.count('helper_lists', (len(kl) if kl is not None else 'default', len(add)))
         line = "refh %d %s %s %s %s %d" % (p, show_list(kv), show_pts(d['P']), 'default' if kl is None else show_list(kl), show_list(add), dens)
         out.append(Case('refine-helper', line, dict(shape=d, kl=kl, add=add, dens=dens)))
+        # the same call against the LITERAL transcription of A5.4 (`refineA54`): once with the list X
+        # computed by the model (`refineXOf`), once with X computed here in exact arithmetic
+        out.append(Case('refine-a54', "refa54h" + line[4:], dict(shape=d, kl=kl, add=add, dens=dens)))
+        X = _xlist(p, kv, kl, add, dens)
+        if X:
+            G.count('a54_X', (len(X), len(set(X))))
+            out.append(Case('refine-a54', "refa54 %d %s %s %s" % (p, show_list(kv), show_pts(d['P']), show_list(X)),
+                            dict(shape=d, kl=kl, add=add, dens=dens)))
+    # A5.4 as coded on the default knot list (all interior knots raised to multiplicity p, densities 1..3:
+    # long lists X, every copy count 1..p)
+    for _ in range(25 if tier == 'quick' else 300):
+        d = S.rand_curve(rng, maxp=4, max_interior=3, allow_range=False)
+        p, kv = d['p'], d['kv']
+        dens = rng.choice([1, 1, 2, 3])
+        X = _xlist(p, kv, None, [], dens)
+        G.count('a54_X', (len(X), len(set(X))))
+        out.append(Case('refine-a54', "refa54h %d %s %s default - %d" % (p, show_list(kv), show_pts(d['P']), dens),
+                        dict(shape=d, kl=None, add=[], dens=dens)))
+        if X:
+            out.append(Case('refine-a54', "refa54 %d %s %s %s" % (p, show_list(kv), show_pts(d['P']), show_list(X)),
+                            dict(shape=d, kl=None, add=[], dens=dens)))
+    # A5.4's own zero test `abs(alpha) < tol` off the exact-zero case: a listed knot closer to an existing
+    # interior knot than the tolerance (5e-8: taken for a copy, weight branch `copy`) or just further (2e-7)
+    for _ in range(8 if tier == 'quick' else 60):
+        d = S.rand_curve(rng, maxp=4, max_interior=2, allow_range=False)
+        p, kv, n_ = d['p'], d['kv'], d['n']
+        interior = sorted(set(kv[p + 1:n_]))
+        if not interior:
+            continue
+        t = rng.choice(interior)
+        eps = rng.choice([F(5, 10 ** 8), F(2, 10 ** 7), -F(5, 10 ** 8), -F(2, 10 ** 7)])
+        kl = [t + eps]
+        G.count('a54_X', 'tol-probe')
+        out.append(Case('refine-a54', "refa54h %d %s %s %s - 1" % (p, show_list(kv), show_pts(d['P']), show_list(kl)),
+                        dict(shape=d, kl=kl, add=[], dens=1), tags=('tol-probe',)))
     # tolerance probes: two interior knots closer together than 1e-3 but further apart than the 1e-7 of
     # the refinement's own zero test (a loosened tolerance would copy instead of blend)
     for _ in range(8 if tier == 'quick' else 60):
@@ -72,6 +110,15 @@ def gen(rng, tier):
     return out
 
 
+def _xlist(p, kv, kl, add, dens):
+    """the list X of knots `helpers.knot_refinement` inserts (exact multiplicities)"""
+    base = list(kl) if kl is not None else kv[p:len(kv) - p]
+    ks = sorted(set(base + list(add)))
+    for _ in range(dens):
+        ks = sorted(set(ks + [a + (b - a) / 2 for a, b in zip(ks, ks[1:])]))
+    return [x for x in ks for _ in range(max(0, p - sum(1 for y in kv if y == x)))]
+
+
 def _helper(c):
     from geomdl import helpers
     from core import qpts
@@ -87,7 +134,7 @@ def _helper(c):
 def impl(c):
     from geomdl import operations
     d = c.data['shape']
-    if c.kind == 'refine-helper':
+    if c.kind in ('refine-helper', 'refine-a54'):
         Q, kv2 = _helper(c)
         return "%s %s" % (show_list(kv2), show_pts(Q))
     o = S.build(d)
@@ -99,6 +146,8 @@ def oracle(c):
     from geomdl import operations
     d = c.data['shape']
     dens = c.data['dens']
+    if c.kind == 'refine-a54':
+        return None          # the oracle runs on the twin 'refine-helper' case
     if c.kind == 'refine-helper':
         p, kv, n_ = d['p'], d['kv'], d['n']
         base = list(c.data['kl']) if c.data['kl'] is not None else kv[p:len(kv) - p]
